@@ -196,3 +196,19 @@ PROPS["C13"] = dict(
     ],
     assumptions=["the dataset is a set of quads (NoDup)", "64-bit isize", "sort_unstable_by returns a permutation"],
 )
+
+PROPS["C12"] = dict(
+    level="proof", runs=[dict(bin="c12")],
+    quick=dict(n=3000, shards=16),
+    thorough=dict(n=100000, shards=128, run_timeout=3000, coq_case_timeout=3000),
+    trusted_base=[
+        "model coq/C12/Model.v of jsonld/src/serializer/engine.rs (after the fix: commits), util_traits.rs filters and the three options (hand-written; hash maps as association lists, vector index = (graph,id) pair); fuel = number of nodes for mark/cells/convert (adequacy argued, not proved; anchoring fuel proved irrelevant)",
+        "reference reader to_rdf (Coq) and reference_to_rdf (Rust oracle) hand-written from JSON-LD 1.1 API section 8 for expanded/flattened documents; lower-cased language in rdfDirection modes",
+        "literal <-> value object conversion abstract in the structural model (value objects obtained from the implementation per literal); checked by the Rust oracle; only the i18n decision is modelled",
+        "sophia's JsonLdParser (json-ld crate) exercised by the oracle, not modelled; isomorphic_datasets (C07) used as comparator",
+    ],
+    assumptions=[
+        "identifiers 1..8 denote rdf:first/rest/nil/type/List/value/direction/language; IRIs never start with '_:'",
+        "the general round trip is checked per case (roundtrip_ok, translation validation), proved only without suppressed nodes",
+    ],
+)
